@@ -110,6 +110,7 @@ def fake_root():
     mod = types.ModuleType("ROOT")
     mod.TFile = type("TFile", (), {})
     mod.TTree = type("TTree", (), {})
+    mod.nullptr = None
     sys.modules["ROOT"] = mod
     return mod
 
@@ -642,6 +643,97 @@ SMOKE_ERRORS = {
 }
 
 
+# error sites found unreached by the raise-statement coverage audit (build/reports/C20_audit.md)
+_FC_NORESET = "type('S3', (), {'fill': lambda s, v: None, 'compute': lambda s: iter([3])})()"
+_UNEVEN = ("type('V', (), {'run': lambda s, fl: iter([v for v in fl for _ in range(M('lena.flow').get_data(v))])})()")
+_NOTHING = "type('D', (), {'run': lambda s, fl: iter(())})()"
+SMOKE_AUDIT = {
+    "lena.context": {
+        "Context": ["P.Context({'a': 1})._hidden", "setattr(P.Context({'a': 1}), '_x', 1)", "setattr(P.Context({'a': 1}), 'b', 2)"],
+        "get_recursively": ["P.get_recursively({'a': 1}, ['a', 5])", "P.get_recursively({'a': {'b': 1}}, {'a': 'b'})"],
+        "update_recursively": ["P.update_recursively({}, {'a': 1}, 5)", "(lambda o: (o.__setitem__('a', o), P.update_recursively({'a': {}}, o)))({})"],
+        "str_to_dict": ["P.str_to_dict('a', 1)", "P.str_to_dict('a.b')", "P.str_to_dict('a')"],
+        "make_include_exclude_tree": ["P.make_include_exclude_tree(['a..b'], [''])", "P.make_include_exclude_tree(['.a'], [''])"],
+        "UpdateContext": ["P.UpdateContext('a', '{{ x', value=True)", "P.UpdateContext('a', '{% if %}', value=True)",
+                          "P.UpdateContext('a', '{{x.y.z}}', value=True, raise_on_missing=True)((5, {}))",
+                          "P.UpdateContext('a', '{{x.y.z}}', value=True, skip_on_missing=True)((5, {}))",
+                          "P.UpdateContext('a', '{{x.y.z}}', value=True, default=2)((5, {}))"],
+    },
+    "lena.core": {
+        "FillCompute": ["P.FillCompute(type('F', (), {'fill': lambda s, v: None})())", "P.FillCompute.fill(None, 1)",
+                        "P.FillCompute.compute(None)",
+                        "fc(P.FillCompute(type('F', (), {'fill': lambda s, v: None, 'request': lambda s: iter([7])})()), [1])"],
+        "FillRequest": ["P.FillRequest(" + _FC2 + ", bufsize=1.5, buffer_input=True, reset=False)",
+                        "P.FillRequest(" + _FC_NORESET + ", buffer_input=True, reset=True)",
+                        "P.FillRequest(type('F', (), {'fill': lambda s, v: None})(), buffer_input=True, reset=False)",
+                        "P.FillRequest.run(None, [])"],
+        "FillSeq": ["P.FillSeq.fill(None, 1)"],
+        "FillComputeSeq": ["P.FillComputeSeq.fill(None, 1)", "P.FillComputeSeq(5, " + _FC2 + ", 6)"],
+        "FillRequestSeq": ["P.FillRequestSeq.fill(None, 1)"],
+    },
+    "lena.flow": {
+        "Cache": ["P.Cache('no_such_file.pkl').drop_cache()", "(os.mkdir('d.pkl'), P.Cache('d.pkl').drop_cache())[1]",
+                  "P.Cache('x.pkl', method='json')"],
+        "seq_map": ["P.seq_map(M('lena.core').Sequence(" + _NOTHING + "), [1])",
+                    "P.seq_map(M('lena.core').Sequence(" + _NOTHING + "), [1], one_result=False)"],
+        "GroupBy": ["fc(P.GroupBy('a'), [(1, {'a': {'x': {1, 2}}})])", "fc(P.GroupBy('a'), [(1, {'a': {'x': object()}})])"],
+        "MapGroup": ["run(P.MapGroup(" + _UNEVEN + "), [([1, 2], {'group': [{}, {}]})])",
+                     "run(P.MapGroup(abs), [([1, 2], {'group': [{}]})])"],
+        "scale_to": ["P.scale_to(int, [1, 2])", "P.scale_to(int, [])", "P.scale_to(str, [1, 2])"],
+        "Slice": ["P.Slice(-1, None, 0)", "P.Slice(-1, None, 1.5)", "P.Slice(-1, None, -1)",
+                  "(lambda sl, st: [sl.fill_into(st, i) for i in range(3)])(P.Slice(1), P.StoreFilled())",
+                  "(lambda sl, st: [sl.fill_into(st, i) for i in range(4)])(P.Slice(0, 3, 2), P.StoreFilled())"],
+        "Zip": ["P.Zip([])", "P.Zip([" + _FC2 + "], fields=['a', 'b'])", "P.Zip([" + _FC2 + "], fields='a b')"],
+    },
+    "lena.input": {
+        "ReadROOTTree": ["(fake_root(), P.ReadROOTTree(leaves=['x*']))[1]", "(fake_root(), P.ReadROOTTree(leaves='x'))[1]"],
+    },
+    "lena.math": {
+        "Mean": ["P.Mean(" + _FC_NORESET + ").reset()", "(lambda m: (m.fill(1), m.reset()))(P.Mean(" + _FC_NORESET + "))"],
+        "Vectorize": ["P.Vectorize([P.Sum()], dim=2)", "P.Vectorize([], dim=-1)", "fc(P.Vectorize([P.Sum(), P.Sum()]), [])"],
+        "vector3": ["P.vector3(1, 2, 3) < P.vector3(1, 2, 3)", "P.vector3(1, 2, 3) <= P.vector3(1, 2, 3)",
+                    "P.vector3(1, 2, 3) > 1", "P.vector3(1, 2, 3) >= None", "sorted([P.vector3(1, 2, 3), P.vector3(0, 0, 0)])"],
+    },
+    "lena.meta": {
+        "SetContext": ["M('lena.core').Sequence(P.SetContext('a', '{{x}}'))._get_context()",
+                       "M('lena.core').Sequence(P.SetContext('a', '{{x}}'), P.UpdateContextFromStatic()).run(iter([(1, {})]))"],
+    },
+    "lena.output": {
+        "hist1d_to_csv": ["list(P.hist1d_to_csv(M('lena.structures').histogram([0, 1, 2], [[1], [2]])))",
+                          "list(P.hist1d_to_csv(M('lena.structures').histogram([0, 1, 2], [1, None]), duplicate_last_bin=False))",
+                          "list(P.hist1d_to_csv(M('lena.structures').histogram(['a', 'b', 'c'], [1, 2])))"],
+        "ToCSV": ["run(P.ToCSV(), [M('lena.structures').histogram([0, 1, 2], [[1], [2]])])"],
+        "WriteROOTTree": ["(fake_root(), P.WriteROOTTree('t', 'f.root')._val_to_type_fields((1, {})))[1]",
+                          "(fake_root(), P.WriteROOTTree('t', 'f.root')._val_to_type_fields(((1, 2), {'variable': {'combine': [{}]}})))[1]"],
+    },
+    "lena.structures": {
+        "graph": ["P.graph([])", "P.graph(([0, 1], [2, 3]))", "P.graph([[0], [1]], field_names=['x', 'y'])",
+                  "P.graph([[0], [1]], field_names=('error_x', 'x'))", "P.graph([[0], [1], [2]], field_names=('x', 'x_y', 'error_x_y'))",
+                  "P.graph([[0], [1]], field_names=('x', 'error_y'))"],
+        "Graph": ["P.Graph(context=5)", "P.Graph(points=[(1, 2)], scale=0).scale(1)", "fc(P.Graph(scale=2), [((1, 2), {'scale': 3})])",
+                  "P.Graph(points=[((1, 2), 3), ((1,), 3)]).points", "P.Graph().scale()"],
+        "hist_to_graph": ["P.hist_to_graph(P.histogram([0, 1, 2], [3, 4]), field_names=['x', 'y'])",
+                          "P.hist_to_graph(P.histogram([0, 1, 2], [3, 4]), get_coordinate='centre')"],
+        "iter_cells": ["list(P.iter_cells(P.histogram([0, 1, 2], [3, 4]), ranges=[(-1, 1)]))",
+                       "list(P.iter_cells(P.histogram([0, 1, 2], [3, 4]), ranges=[(0, 9)]))",
+                       "list(P.iter_cells(P.histogram([0, 1, 2], [3, 4]), ranges=[(None, None)]))"],
+        "histogram": ["P.histogram([[0, 1, 2], [0, 1]], bins=[[1]])", "P.histogram([0, 1, 2], bins=[1])", "P.histogram([0, 1, 2]).add(5)",
+                      "P.histogram([0, 1, 2]).add(P.histogram([0, 1, 3]))", "P.histogram([0, 1, 2]).set_nevents(5)",
+                      "M('lena.flow').scale_to(1, [P.histogram([0, 1], [0])])",
+                      "M('lena.flow').scale_to(1, [P.histogram([0, 1], [0])], allow_zero_scale=True)",
+                      "M('lena.flow').scale_to(1, [P.graph([[0], [1]])], allow_unknown_scale=True)"],
+        "root_graph_errors": ["(fake_root(), P.root_graph_errors(P.graph([[0], [1], [2]], field_names='x y z')))[1]",
+                              "(fake_root(), P.root_graph_errors(P.graph([[0], [1], [1]], field_names=('x', 'y', 'error_y_low'))))[1]"],
+    },
+    "lena.variables": {
+        "Variable": ["P.Variable('x', P.Variable('y', abs))", "P.Variable('x', abs)._private"],
+        "Compose": ["P.Compose(P.Variable('a', abs), getter=abs)", "P.Compose(P.Variable('a', abs), 5)"],
+        "Combine": ["P.Combine(P.Variable('a', abs), getter=abs)"],
+        "Cm": ["P.Cm(P.Variable('a', abs, unit='km'))", "P.Cm(P.Variable('a', abs, unit='cm'))(3)", "P.Cm(P.Variable('a', abs, unit='m'))(3)"],
+    },
+}
+
+
 def smoke_items(pkg, names):
     """[(key, code)] for the public names of a subpackage; names without an entry get the generic
     smoke: the attribute itself, and a call without arguments if it is callable."""
@@ -655,6 +747,7 @@ def smoke_items(pkg, names):
         else:
             lst.extend(("%s#%d" % (n, k), c) for k, c in enumerate(codes))
         lst.extend(("%s#e%d" % (n, k), c) for k, c in enumerate(SMOKE_ERRORS.get(pkg, {}).get(n, [])))
+        lst.extend(("%s#a%d" % (n, k), c) for k, c in enumerate(SMOKE_AUDIT.get(pkg, {}).get(n, [])))
         items[n] = lst
     return items
 
